@@ -30,7 +30,7 @@ def roundtrip_sym(p):
     cols = {"bin1_id": b1, "bin2_id": b2, "count": v, "w": w}
     cuts = sym_cuts(K, m) if form == "iter" else [0, K]
     cover("count_at_type_limit", or_(*[x == 2**31 - 1 for x in v]) if K else False)
-    dts = {"bin1_id": "int64", "bin2_id": "int64", "count": "int32", "w": "float64"}
+    dts = {"bin1_id": p.get("id_dtype", "int64"), "bin2_id": p.get("id_dtype", "int64"), "count": "int32", "w": "float64"}
     mk = lambda items, k: SArr(list(items), dts[k])  # noqa
     path = scratch_file("c01.cool")
     pixels = _input_form(form, cols, cuts, mk, sympd)
@@ -74,7 +74,7 @@ def roundtrip_real(p, inputs):
     w = [inputs[f"w{q}"] for q in range(K)]
     cols = {"bin1_id": b1, "bin2_id": b2, "count": v, "w": w}
     cuts = real_cuts(inputs, K, m) if form == "iter" else [0, K]
-    dts = {"bin1_id": "int64", "bin2_id": "int64", "count": "int32", "w": "float64"}
+    dts = {"bin1_id": p.get("id_dtype", "int64"), "bin2_id": p.get("id_dtype", "int64"), "count": "int32", "w": "float64"}
     mk = lambda items, k: np.array(list(items), dtype=dts[k])  # noqa
     path = scratch_file("c01.cool")
     cooler.create_cooler(path, bins, _input_form(form, cols, cuts, mk, pd), columns=["count", "w"], dtypes={"w": "float64"},
@@ -82,7 +82,7 @@ def roundtrip_real(p, inputs):
     c = cooler.Cooler(path)
     tab = c.pixels()[:]
     exp = pd.DataFrame({k: mk(vv, k) for k, vv in cols.items()})
-    if len(tab) != K or not all(np.array_equal(tab[k].to_numpy(), exp[k].to_numpy()) for k in cols):
+    if len(tab) != K or not all(np.array_equal(tab[k].to_numpy().astype(exp[k].dtype if k in ("count", "w") else "int64"), exp[k].to_numpy()) for k in cols):
         raise OracleFailure(f"pixel table read back {tab.to_dict('list')} differs from the records given {exp.to_dict('list')}")
     mat = c.matrix(balance=False)[:]
     matw = c.matrix(balance=False, field="w")[:]
@@ -112,6 +112,10 @@ def _cases(tier):
                 out.append(dict(layout=list(layout), kind=kind, K=K, m=m, upper=upper, form=form))
     # values over the whole range of the default count type (every value that fits must be stored, none may be refused)
     out.append(dict(layout=[2], kind="fixed", K=1, m=1, upper=True, form="iter", vhi=2**31 - 1))
+    # bin ids handed over in the narrowest integer type that holds them (12 bins in int8): any arithmetic on the id columns
+    # inside create happens in that type
+    out.append(dict(layout=[12], kind="even", K=2, m=1, upper=True, form="df", id_dtype="int8"))
+    out.append(dict(layout=[12], kind="even", K=2, m=1, upper=False, form="dict", id_dtype="int8"))
     return out
 
 
@@ -134,7 +138,12 @@ def loader_sym(p):
     arr = SArr(items, "int64", (n, n))
     cs = sym_int("chunksize", 1, n * n + 1)
     path = scratch_file("c01l.cool")
-    sc.create_cooler(path, bins, ArrayLoader(bins, arr, cs), ordered=True)
+    ld = ArrayLoader(bins, arr, cs)
+    sc.create_cooler(path, bins, ld, ordered=True)
+    if p.get("reuse"):
+        # the same loader object feeds a second creation: it must deliver the same matrix again
+        path = scratch_file("c01l2.cool")
+        sc.create_cooler(path, bins, ld, ordered=True)
     c = sc.Cooler(path)
     mat = c.matrix(balance=False)[:]
     cover("has_zero", or_(*[x == 0 for x in ent.values()]))
@@ -156,7 +165,11 @@ def loader_real(p, inputs):
         for b_ in range(a, n):
             arr[a, b_] = arr[b_, a] = inputs[f"m{a}{b_}"]
     path = scratch_file("c01l.cool")
-    cooler.create_cooler(path, bins, ArrayLoader(bins, arr, inputs["chunksize"]), ordered=True)
+    ld = ArrayLoader(bins, arr, inputs["chunksize"])
+    cooler.create_cooler(path, bins, ld, ordered=True)
+    if p.get("reuse"):
+        path = scratch_file("c01l2.cool")
+        cooler.create_cooler(path, bins, ld, ordered=True)
     c = cooler.Cooler(path)
     mat = c.matrix(balance=False)[:]
     if not np.array_equal(mat, arr):
@@ -175,7 +188,7 @@ CHECKS = [
           stubs=("E3 in-memory h5py model (integer writes clip, filters are no-ops)", "E4 pandas models on symbolic columns",
                  "E5 coo_matrix.toarray sums duplicates"),
           outside=("HDF5 filter pipelines (no-ops in the model)", "dask input", "K beyond the bound"), timeout=3000, split_depth=7),
-    Check("arrayloader", lambda tier: [dict(n=2), dict(n=3)] if tier == "quick" else [dict(n=2), dict(n=3), dict(n=4)],
+    Check("arrayloader", lambda tier: [dict(n=2), dict(n=3), dict(n=2, reuse=True)] if tier == "quick" else [dict(n=2), dict(n=3), dict(n=4), dict(n=3, reuse=True)],
           loader_sym, loader_real, labels=("has_zero", "small_chunks"),
           doc="ArrayLoader over a symbolic symmetric dense matrix with symbolic chunk size, upper mode",
           bounds=dict(quick="n<=3", thorough="n<=4"), timeout=1500),
